@@ -29,6 +29,9 @@ void _ZN4bloc9b64encodeEPKvmRNSt7__cxx1112basic_stringIcSt11char_traitsIcESaIcEE
 void _ZN4bloc9b64decodeEPKvmRSt6vectorIcSaIcEE(const void *d, unsigned long n, struct vec_char *out)
 { __CPROVER_assert(n == 0 || __CPROVER_r_ok(d, n), "b64decode: the len bytes are readable"); if (n > 0) { unsigned long m = __g2c_nondet_ulong(); __CPROVER_assume(m <= n); SZ(out) = m; } }
 
+/* static double Context::random(double) (context.cpp: std::minstd_rand seeded with the pid; outside the cut, assumed contract: returns some double and touches nothing visible) */
+double _ZN4bloc7Context6randomEd(double max) { (void)max; return __g2c_nondet_double(); }
+
 /* static Value& BuiltinExpression::handback(Context&, Value&) (expression_builtin.cpp; proved on its real body: job builtin_handback):
  * an owned argument is cloned into a temporary, a temporary is handed back itself */
 struct Value *_ZN4bloc17BuiltinExpression8handbackERNS_7ContextERNS_5ValueE(struct Context *ctx, struct Value *val)
